@@ -117,6 +117,32 @@ def run(ctx):
                         {"site": "calculate_conv_output", "form": "shared-args", "mode": mode}, observed=o, required=want)
             o = {"r": o["r"]}
         cases.append(case); obs.append(o); reqs.append(case)
+    # consecutive calls whose arguments *flatten* to the same numbers but group them differently (a scalar here, a
+    # pair there): results must not depend on what was computed earlier in the process
+    for _ in range(ctx.n(60)):
+        for _try in range(50):
+            ns = [rng.randrange(6, 30), rng.randrange(6, 30)]
+            a, b, c, d2, st = rng.randrange(0, 3), rng.randrange(1, 3), rng.randrange(1, 4), rng.randrange(1, 4), rng.randrange(1, 4)
+            # call A: padding=a (both axes), dilation=b, kernel=(c, d2);  call B: padding=(a, b), dilation=c, kernel=d2
+            A = dict(p=[a, a], d=[b, b], k=[c, d2], s=[st, st])
+            B = dict(p=[a, b], d=[c, c], k=[d2, d2], s=[st, st])
+            ok = all(dd * (kk - 1) + 1 <= n + 2 * pp for X in (A, B) for n, pp, dd, kk in zip(ns, X["p"], X["d"], X["k"]))
+            if ok and (A != B):
+                break
+        else:
+            continue
+        argsA = [gen.hp(rng, ns, allow_scalar=False), gen.pyint(a), gen.pyint(b), {"t": [gen.pyint(c), gen.pyint(d2)]}, gen.pyint(st)]
+        argsB = [gen.hp(rng, ns, allow_scalar=False), {"t": [gen.pyint(a), gen.pyint(b)]}, gen.pyint(c), gen.pyint(d2), gen.pyint(st)]
+        for args, X in rng.sample([(argsA, A), (argsB, B)], 2):
+            want = [true_axis(n, p_, d_, k_, s_) for n, p_, d_, k_, s_ in zip(ns, X["p"], X["d"], X["k"], X["s"])]
+            o = impl_conv_out(args)
+            case = {"op": "conv_out", "args": args, "after_call_with": (argsB if args is argsA else argsA)}
+            ctx.case(case); ctx.count("forms_regrouped")
+            if "err" in o or ints_of(o["r"]) != want:
+                ctx.violate(case, "calculate_conv_output depends on an earlier call whose arguments flatten to the same numbers",
+                            {"site": "calculate_conv_output", "form": "regrouped"}, observed=o, required=want)
+            c2 = {"op": "conv_out", "args": args}
+            cases.append(c2); obs.append({"r": o["r"]} if "r" in o else o); reqs.append(c2)
     # large sizes (below 2^40; float64 floor division exact)
     for _ in range(ctx.n(60)):
         n = rng.randrange(1, 2 ** 40); k = rng.randrange(1, 50); d = rng.randrange(1, 50)
@@ -137,7 +163,28 @@ def run(ctx):
     # -- 3. Conv1d / Conv2d typed at construction ---------------------------------------
     cases, obs, reqs = [], [], []
     for i in range(ctx.n(300)):
-        if i % 3 == 0:
+        if i % 10 == 9:
+            # wide kernels with the dilation held in a narrow integer array: d*(k-1) exceeds that dtype's range, the
+            # arithmetic must not be carried out in it
+            two_d = rng.random() < 0.6
+            na = 2 if two_d else 1
+            ks = [rng.randrange(34, 110) for _ in range(na)]
+            ds = [rng.choice([2, 3]) for _ in range(na)]
+            ss = [rng.randrange(1, 4) for _ in range(na)]
+            ns = [d * (k - 1) + 1 + rng.randrange(0, 40) for d, k in zip(ds, ks)]
+            ddt = rng.choice(["|i1", "|u1", "|i1"])
+            dil = {"a": ddt, "sh": [na], "x": np.array(ds, dtype=np.dtype(ddt)).tobytes().hex()} if two_d else gen.npint(ds[0], ddt)
+            cin, cout = 1, rng.randrange(1, 3)
+            mode = "explicit"
+            rec = {"type": "Conv2d" if two_d else "Conv1d", "kwargs": [
+                ["input_shape", {"t": [gen.pyint(x) for x in ns]} if two_d else gen.pyint(ns[0])],
+                ["weight", gen.arr(rng, [cout, cin] + ks, "<f2")],
+                ["stride", {"t": [gen.pyint(x) for x in ss]} if two_d else gen.pyint(ss[0])], ["padding", gen.pyint(0)],
+                ["dilation", dil], ["groups", gen.pyint(1)], ["bias", gen.arr(rng, [cout], "<f2")]]}
+            want_out = [cout] + [true_axis(n, 0, d, k, s_) for n, d, k, s_ in zip(ns, ds, ks, ss)]
+            want_in = [cin] + list(ns)
+            ctx.count("wide_kernel_narrow_dilation")
+        elif i % 3 == 0:
             n, p, d, k, s = gen.conv_axis_params(rng)
             mode = rng.choice(["explicit"] * 4 + ["valid", "same"])
             if mode == "valid" and d * (k - 1) + 1 > n:
